@@ -252,7 +252,8 @@ def plan(pid, tier):
                         + sweep_jobs('h_codec', 'c02_band', 2 if q else 6))
     P['C03'] = lambda: (rc_jobs('h_codec', 'c03', 12, 3000 if q else 40000) + sweep_jobs('h_codec', 'c03_xor_sweep', 3 if q else 12)
                         + sweep_jobs('h_codec', 'c03_rs_sweep', 1))
-    P['C04'] = lambda: (sweep_jobs('h_format', 'selftest', 1) + sweep_jobs('h_format', 'c04_matrix', 12) + rc_jobs('h_format', 'c04_parity', 4, 2500 if q else 30000))
+    P['C04'] = lambda: (sweep_jobs('h_format', 'selftest', 1) + sweep_jobs('h_format', 'c04_matrix', 12) + rc_jobs('h_format', 'c04_parity', 4, 2500 if q else 30000)
+                        + rc_jobs('h_format', 'c04_parity_mt', 3, 120 if q else 2500))
     P['C05'] = lambda: (sweep_jobs('h_format', 'selftest', 1) + sweep_jobs('h_format', 'c05_tables', 1) + sweep_jobs('h_format', 'c05_encode', 2) + sweep_jobs('h_format', 'c05_encode', 1, variant='asan-nosse')
                         + sweep_jobs('h_format', 'c05_unsupported', 1)
                         + sweep_jobs('h_codec', 'c05_decode_sweep', 6 if q else 8) + sweep_jobs('h_codec', 'c05_decode_sweep', 4 if q else 8, variant='asan-nosse'))
@@ -283,7 +284,7 @@ RULES = {
     'C01': 'rapidcheck-generated (backend, shape, w, checksum type, length, content, erasure set within tolerance, permutation, duplicates, per-buffer alignment, force flag) plus sweeps (all 38 XOR tables x all erasure sets below hd; every RS/ISA-L shape once with |E|=m). Non-trivial: at least one DATA fragment erased and content not constant. Distinct: 64-bit hash of the canonical case text.',
     'C02': 'rapidcheck-generated sub-multisets of one stripe incl. beyond tolerance, with decode and reconstruct; sweeps: all 2^n subsets of small codes, all flat-XOR erasure sets of size hd..hd+1 (quick) / hd..m+1 (thorough). Non-trivial: set outside tolerance or unrecoverable by the rank oracle.',
     'C03': 'rapidcheck-generated (configuration, data, erasure set within tolerance, destinations lost/present/out of range) plus sweeps (XOR all |E|<hd x lost destinations; RS every shape |E|=m). Non-trivial: >=2 lost and destination lost, or XOR with >=2 lost.',
-    'C04': 'enumerated: all 496 shapes k>=1,m>=1,k+m<=32 - make_systematic_matrix(k,m) entry by entry against L_j(r)/L_j(k) over an independent GF(2^16) (0x1100b), then k-subsets of the library matrix rows inverted (exhaustive up to n=12 quick / n=16 thorough, random subsets above); generated: (k,m,block size,content) -> parity payload bytes from liberasurecode_encode vs closed form on host-order 16-bit words, first parity == XOR of data. Non-trivial: k>=2 (matrix) / k>=2 and two distinct non-zero words (parity).',
+    'C04': 'enumerated: all 496 shapes k>=1,m>=1,k+m<=32 - make_systematic_matrix(k,m) entry by entry against L_j(r)/L_j(k) over an independent GF(2^16) (0x1100b), then k-subsets of the library matrix rows inverted (exhaustive up to n=12 quick / n=16 thorough, random subsets above); generated: (k,m,block size,content) -> parity payload bytes from liberasurecode_encode vs closed form on host-order 16-bit words, first parity == XOR of data; the same comparison with 2-6 threads encoding different data at once through own or shared instances (payloads mostly above 1 KiB). Non-trivial: k>=2 (matrix) / k>=2 and two distinct non-zero words (parity).',
     'C05': 'enumerated: 38 tables x (library bitmaps vs golden equations in both directions, minimum distance by GF(2) rank over all erasure sets <= hd, encode with one non-zero data fragment at a time and with random data for payload sizes 4..4100, every erasure set below hd decoded and reconstructed, SSE2 and portable builds), and every (k,m,hd) in 0..33 x 0..8 x 0..7 outside the 38 refused. Non-trivial: >=2 erasures or a parity rebuilt (decode sweep); every table/encode case.',
     'C07': 'rapidcheck-generated (backend incl. null, shape, w, checksum type incl. MD5, legacy-CRC env, length, content) + one case per shape per backend: every byte of every fragment vs an independent serializer (literal offsets, independent GF and CRC models). Non-trivial: CRC32, length not a multiple of k*wordsize, non-constant data.',
     'C08': 'rapidcheck-generated (backend incl. null, shape, length to 2^20) + dense sweep of all lengths 0..4*k*ws+2 for 40+ configurations: the three size queries vs arithmetic and vs what encode produced; dead/never-issued/negative descriptors refused. Non-trivial: length not a multiple of k*wordsize.',
@@ -425,7 +426,7 @@ for _m in ['c17', 'c17_single']:
 MODE_HARNESS['c18_tsan'] = ('t_race', 'tsan')
 MODE_HARNESS['c18_sched'] = ('h_sched', 'asan')
 MODE_HARNESS['c18_sched_exhaustive'] = ('h_sched', 'asan')
-for _m in ['c07', 'c07_sweep', 'c08', 'c08_sweep', 'c04_matrix', 'c04_parity', 'c05_tables', 'c05_encode', 'c05_unsupported']:
+for _m in ['c07', 'c07_sweep', 'c08', 'c08_sweep', 'c04_matrix', 'c04_parity', 'c04_parity_mt', 'selftest', 'c05_tables', 'c05_encode', 'c05_unsupported']:
     MODE_HARNESS[_m] = ('h_format', 'asan')
 for _m in ['c19', 'c19_sweep', 'c19_inv', 'c19_singular', 'c05_decode_sweep', 'c01', 'c01_xor_sweep', 'c01_rs_sweep', 'c01_isa_sweep', 'c02', 'c02_subsets', 'c02_band', 'c03', 'c03_xor_sweep', 'c03_rs_sweep', 'c20']:
     MODE_HARNESS[_m] = ('h_codec', 'asan')
